@@ -6,7 +6,7 @@
    filter of Spec/RTS.v on the closed-form integrated-Wiener transition. *)
 From Coq Require Import List Arith.
 From PD Require Import Base.Field Base.Matrix Base.Solve Model.Gauss Model.Poly Model.Prior Model.Solver Spec.RTS
-  Proofs.GaussProofs Proofs.FilterProofs Proofs.PriorProofs Proofs.SolverRefine Proofs.SolverGrid.
+  Proofs.GaussProofs Proofs.FilterProofs Proofs.PriorProofs Proofs.SolverRefine Proofs.SolverGrid Proofs.SolverRefineLin.
 Import ListNotations.
 
 Section C02.
@@ -90,6 +90,21 @@ Section C02.
         = option_map (map lift1)
             (ekf_grid_iso q d o (fmul (vget base2 0) f1) damp2 (st_t st) rv dts).
   Proof. exact iso_ts0_fixed_grid_is_ekf. Qed.
+
+  (* the same for BOTH linearisation orders: the observation model of the EKF is the
+     documented isotropic linearisation at the predicted mean (Proofs/SolverRefineLin.v:
+     TS0: H = E_k, bias -f(m^-); TS1: H = E_k - trace-averaged Jacobian, bias g(m^-) - H m^-) *)
+  Theorem C02_isotropic_fixed_grid_is_extended_kalman_filter :
+    forall (q d : nat) (o : @odeP F) (l : lin) (base2 : @vec F) (damp2 : F) (dts : list F),
+      let cf := mkCfg (mkShape Iso q d) Filter CalNone l o base2 damp2 in
+      Forall (fun dt => dt <> f0) dts ->
+      forall (st : @sstate F) (rv : @normal F) (pc : list (@cond F)),
+        st_u st = [rv] -> st_post st = mkPost [rv] pc ->
+        symmetric (S q) (n_cov rv) ->
+        option_map (map view) (fixed_grid_states minv cf st dts)
+        = option_map (map lift1)
+            (ekf_grid_iso_lin q d o l (fmul (vget base2 0) f1) damp2 (st_t st) rv dts).
+  Proof. exact iso_fixed_grid_is_ekf. Qed.
 End C02.
 
 Print Assumptions C02_prediction_is_kalman_prediction.
@@ -98,3 +113,4 @@ Print Assumptions C02_correction_is_kalman_update.
 Print Assumptions C02_isotropic_ts0_filter_step_is_ekf_step.
 Print Assumptions C02_symmetry_is_invariant.
 Print Assumptions C02_isotropic_ts0_fixed_grid_is_ekf.
+Print Assumptions C02_isotropic_fixed_grid_is_extended_kalman_filter.
